@@ -11,7 +11,7 @@ ID = "C11"
 LEVEL = "exploration"
 RULE = ("case = (cyclic block graph built from templates, inputs per cycle): 'false' loops (block graph cyclic, bit graph "
         "acyclic: a stage chain alternating between 2-3 blocks through disjoint slices / struct fields / connections / "
-        "child components), 'ring' true loops S_i = F_i(S_{i-1}) whose composed map G is classified by brute force over "
+        "child components, optionally with a second, wider carrier written whole from a second input and read through a slice; or a ring of 10-14 blocks with if/else whose stages shift the value out), 'ring' true loops S_i = F_i(S_{i-1}) whose composed map G is classified by brute force over "
         "the <=3-bit loop value (no fixed point -> must raise; otherwise only 'returned => stable': a ring with fixed "
         "points may legitimately be reported because several in-flight values can rotate forever under a sequential "
         "sweep), and rings containing an update_once block; run under DefaultPassGroup and Mamba2020 "
